@@ -225,7 +225,7 @@ def _tiny(R, rng, ctx):
     one filter object; the contract is judged relative to the magnitude of the problem, not to 1."""
     defn = gen.contractive_program(rng, n_state=(1, 3), n_control=(0, 1), n_calib=(0, 1), n_sensor=(1, 2),
                                    n_reading=(1, 2), depth=1, n_shared=(0, 1), allow_text=False)
-    sc = rng.choice([1e-9, 1e-10, 1e-11])
+    sc = rng.choice([1e-9, 1e-10, 1e-11, 1e-13])
     defn["sensor_noises"] = {s_: {r: v * sc for r, v in rd.items()} for s_, rd in defn["sensor_noises"].items()}
     b = build.Built(defn)
     ekf = b.py_ekf(common_subexpression_elimination=False, innovation_filtering=None)
